@@ -370,7 +370,8 @@ class InitComponent(FnSpec):
     may_raise = True
     frame_rule = True
     # A-NEW: calling a class that passed `issubclass(cls, Component)` yields a Component instance (no metaclass/__new__ tricks)
-    opaque_result_types = {"component_class": (INST("Component"), "A-NEW")}
+    # (the constructor call is the only opaque call of a plain name; `.split` on a non-string value is the other opaque call)
+    opaque_result_types = {(lambda anchor: anchor.startswith("call(") and not anchor.startswith("call(.")): (INST("Component"), "A-NEW")}
 
     def requires(self, F):
         cur = F.old.h("g:curctx")
